@@ -92,7 +92,16 @@ fn run_one(cmd: &str, input: &[u8]) -> String {
       // output: JSON array, per request {"ok": SearchResult} | {"err": msg}
       let v: serde_json::Value = match serde_json::from_slice(input) { Ok(v) => v, Err(e) => return format!("ERR bad input {}", e) };
       let schema: searchlite_core::api::types::Schema = if v["schema"].is_null() {
-        searchlite_core::api::types::Schema::default_text_body()
+        // default text schema, optionally extended: "schema_add": {"numeric_fields": [..], "keyword_fields": [..]}
+        let mut base = serde_json::to_value(searchlite_core::api::types::Schema::default_text_body()).unwrap();
+        if let Some(add) = v["schema_add"].as_object() {
+          for (k, items) in add.iter() {
+            if let (Some(dst), Some(src)) = (base[k].as_array_mut(), items.as_array()) {
+              dst.extend(src.iter().cloned());
+            }
+          }
+        }
+        match serde_json::from_value(base) { Ok(s) => s, Err(e) => return format!("ERR schema_add {}", e) }
       } else {
         match serde_json::from_value(v["schema"].clone()) { Ok(s) => s, Err(e) => return format!("ERR schema {}", e) }
       };
